@@ -315,6 +315,24 @@ where
     }
 }
 
+/// Like `run_cases` for an enumeration of `total` cases: complete at scale >= 1, an evenly strided
+/// subset (first and last included) for sanitizer slices.
+pub fn run_enum<F>(ctx: &Ctx, rep: &mut Report, wl: u64, total: u64, f: F)
+where
+    F: Fn(&mut Local, &mut Rng, u64) + Sync,
+{
+    if ctx.scale >= 1.0 || ctx.replay.is_some() || total <= 2 {
+        return run_cases(ctx, rep, wl, total, f);
+    }
+    let k = ((total as f64 * ctx.scale).ceil() as u64).clamp(2, total);
+    run_cases(ctx, rep, wl, k, |l, rng, j| {
+        let mapped = ((j as u128 * (total - 1) as u128) / (k - 1) as u128) as u64;
+        l.cur_index = mapped;
+        *rng = Rng::for_case(ctx.seed, wl, mapped);
+        f(l, rng, mapped)
+    });
+}
+
 fn run_one<F>(l: &mut Local, rng: &mut Rng, i: u64, f: &F)
 where
     F: Fn(&mut Local, &mut Rng, u64) + Sync,
